@@ -172,6 +172,128 @@ def gen_history(rng):
     return ops
 
 
+# ------------------------------------------------------------------------------------------
+# controlled OS threads: ops
+#   ["tsp", a, name, plan] plan none|name      ["tstop", a, plan] plan none|publish|pid|both
+#   ["res", a]  ["twait", a]  ["wh", name]  ["whp", a]
+
+def thr_translate(ops):
+    st = {}       # a -> state: failed | paused_spawn | run | paused_publish(pid_next) | paused_pid | exited
+    holder = {}
+    name_of = {}
+    labels, hops = [], []
+    for op in ops:
+        k = op[0]
+        if k == "tsp":
+            _, a, n, plan = op
+            hops.append(f"tsp {a} {n} {plan}")
+            name_of[a] = n
+            if n in holder:
+                labels.append(f"LStep {a}")
+                st[a] = "failed"
+            else:
+                holder[n] = a
+                if plan == "name":
+                    labels.append(f"LStep {a}")
+                    st[a] = "paused_spawn"
+                else:
+                    labels += [f"LStep {a}", f"LStep {a}", f"LStart {a} true"]
+                    st[a] = "run"
+        elif k == "res":
+            a = op[1]
+            hops.append(f"res {a}")
+            if st[a] == "paused_spawn":
+                labels += [f"LStep {a}", f"LStart {a} true"]
+                st[a] = "run"
+            elif st[a] == "paused_publish+pid":
+                labels.append(f"LStep {a}")
+                st[a] = "paused_pid"
+            elif st[a] == "paused_publish":
+                labels += [f"LStep {a}", f"LStep {a}", f"LFinish {a}"]
+                st[a] = "exited"
+                holder.pop(name_of[a], None)
+            elif st[a] == "paused_pid":
+                labels += [f"LStep {a}", f"LFinish {a}"]
+                st[a] = "exited"
+                holder.pop(name_of[a], None)
+        elif k == "tstop":
+            _, a, plan = op
+            hops.append(f"tstop {a} {plan}")
+            if st[a] != "run":
+                continue
+            labels.append(f"LStop {a}")
+            if plan in ("publish", "both"):
+                st[a] = "paused_publish+pid" if plan == "both" else "paused_publish"
+            elif plan == "pid":
+                labels.append(f"LStep {a}")
+                st[a] = "paused_pid"
+            else:
+                labels += [f"LStep {a}", f"LStep {a}", f"LFinish {a}"]
+                st[a] = "exited"
+                holder.pop(name_of[a], None)
+        elif k == "twait":
+            a = op[1]
+            hops.append(f"twait {a}")
+            if st[a] == "exited":
+                labels.append(f"LWaitRet {a}")
+        elif k == "wh":
+            hops.append(f"wh {op[1]}")
+            labels.append(f"LWhere {op[1]}%N")
+        elif k == "whp":
+            hops.append(f"whp {op[1]}")
+            if st.get(op[1]) not in (None, "failed", "paused_spawn"):
+                labels.append(f"LWherePid {op[1]}")
+    n = (max(st) + 1) if st else 0
+    acts = "[" + "; ".join(f"(Some {name_of[a]}%N, false)" for a in range(n)) + "]"
+    exp = []
+    for a in range(n):
+        exp.append({"failed": "AlreadyRegistered", "paused_spawn": "Pending"}.get(st[a], "Ok"))
+    return {"line": "thr " + " ; ".join(hops), "acts": acts, "labels": "[" + "; ".join(labels) + "]", "expected": exp}
+
+
+def gen_thr(rng):
+    ops, st, nxt = [], {}, 0
+    names = [1, 2][:rng.choice([1, 1, 2])]
+    for _ in range(rng.choice([4, 7, 10, 14, 18])):
+        r = rng.random()
+        paused = [a for a, x in st.items() if x.startswith("paused")]
+        run = [a for a, x in st.items() if x == "run"]
+        exited = [a for a, x in st.items() if x == "exited"]
+        if r < 0.28 or not st:
+            plan = rng.choice(["none", "name", "name"])
+            n = rng.choice(names)
+            ops.append(["tsp", nxt, n, plan])
+            st[nxt] = "new"     # real state is decided by thr_translate's bookkeeping; mirror it roughly
+            # mirror: holder bookkeeping
+            held = [a for a, x in st.items() if x in ("run", "paused_spawn", "paused_publish", "paused_publish+pid", "paused_pid")
+                    and a != nxt and gen_thr.names.get(a) == n]
+            gen_thr.names[nxt] = n
+            st[nxt] = "failed" if held else ("paused_spawn" if plan == "name" else "run")
+            nxt += 1
+        elif r < 0.45 and paused:
+            a = rng.choice(paused)
+            ops.append(["res", a])
+            st[a] = {"paused_spawn": "run", "paused_publish+pid": "paused_pid", "paused_publish": "exited",
+                     "paused_pid": "exited"}[st[a]]
+        elif r < 0.60 and run:
+            a = rng.choice(run)
+            plan = rng.choice(["none", "publish", "pid", "both", "both"])
+            ops.append(["tstop", a, plan])
+            st[a] = {"none": "exited", "publish": "paused_publish", "pid": "paused_pid", "both": "paused_publish+pid"}[plan]
+        elif r < 0.68 and exited:
+            ops.append(["twait", rng.choice(exited)])
+        elif r < 0.80 and st:
+            ops.append(["whp", rng.choice(list(st))])
+        else:
+            ops.append(["wh", rng.choice(names)])
+    for n in names:
+        ops.append(["wh", n])
+    return ops
+
+
+gen_thr.names = {}
+
+
 def run(chk):
     quick = chk.tier == "quick"
     ok_proofs = chk.proofs()
@@ -187,17 +309,27 @@ def run(chk):
         return chk.finish(trusted_base=TRUSTED)
 
     hists = []
+    corpus_thr = []
+    replay_thr = None
     if getattr(chk, "replay", None):
         txt = open(chk.replay).read()
         j = json.loads(txt[txt.index("{"):])
-        hists = [("replay", j.get("ops", j))]
+        if "thread_ops" in j:
+            replay_thr = j["thread_ops"]
+            hists = [("replay", [["wh", 1]])]
+        else:
+            hists = [("replay", j.get("ops", j))]
     cdir = os.path.join(ROOT, "corpus", "C10")
     if os.path.isdir(cdir) and not hists:
         for f in sorted(os.listdir(cdir)):
             if f.endswith(".json"):
                 for l in open(os.path.join(cdir, f)):
                     if l.strip() and not l.startswith("#"):
-                        hists.append(("corpus:" + f, json.loads(l)["ops"]))
+                        j = json.loads(l)
+                        if "thread_ops" in j:
+                            corpus_thr.append(j["thread_ops"])
+                        else:
+                            hists.append(("corpus:" + f, j["ops"]))
     n_corpus = len(hists)
     replaying = bool(hists) and hists[0][0] == "replay"
     if not replaying:
@@ -225,8 +357,24 @@ def run(chk):
         tup = parse_term(out)
         hammer_out.append(tup)
         exprs.append(f"check_hammer {tup[3]} {tup[4]} {tup[5]}")
+    # controlled OS threads (hook points new.after_name, status.after_publish, cleanup.after_pid)
+    thr_ops = []
+    if not replaying:
+        thr_ops = list(corpus_thr)
+        for _ in range((150 if quick else 2000) * factor):
+            gen_thr.names = {}
+            thr_ops.append(gen_thr(chk.rng))
+    elif replay_thr is not None:
+        thr_ops = [replay_thr]
+    ttr = [thr_translate(o) for o in thr_ops]
+    thr_impl = [parse_term(x) for x in run_harness(build, "eng_reg", [t["line"] for t in ttr], shards=8, timeout=600)] if ttr else []
+    n_main = len(exprs)
+    for t, it in zip(ttr, thr_impl):
+        exprs.append(f"(history false {t['labels']} (init {t['acts']}), check_C10 {show_hist(it[1])})")
     model = coq_eval("C10", IMPORTS, exprs, scope=None)
     model_t = [parse_term(x) for x in model]
+    thr_model = model_t[n_main:]
+    model_t = model_t[:n_main]
 
     distinct = set()
     found = []
@@ -278,6 +426,25 @@ def run(chk):
             found.append((0, True, "threads hammering a few names: a live holder was not found / a waited actor was found",
                           "C10 oracle check_hammer rejects (spawn_ok, already_registered, live_holder_not_found, "
                           "found_after_wait, other): " + show_term(tup) + "\n" + json.dumps({"ops": [], "hammer": show_term(tup)})))
+    for ops, t, it, mt in zip(thr_ops, ttr, thr_impl, thr_model):
+        chk.coverage["evaluations"] += 1
+        for o in ops:
+            chk.count("thr.op." + o[0] + ("." + str(o[-1]) if o[0] in ("tsp", "tstop") else ""))
+        distinct.add("thr" + json.dumps(ops))
+        m_hist, oracle = mt[1], mt[2]
+        desc = json.dumps({"thread_ops": ops, "harness_line": t["line"], "model_actors": t["acts"], "model_labels": t["labels"],
+                           "impl_history": show_term(it[1]), "impl_spawn_results": show_term(it[2]),
+                           "model_history": show_term(m_hist), "expected_spawn_results": t["expected"]}, indent=1)
+        if oracle != "true":
+            found.append((len(ops), True, "controlled threads: the registry history violates C10",
+                          "C10 oracle check_C10 rejects the implementation's history under a controlled thread schedule "
+                          "(hook points)\n" + desc))
+        elif it[1] != m_hist or [str(x) for x in it[2]] != t["expected"]:
+            chk.coverage["disagreements_checked"] += 1
+            found.append((len(ops), False, "model/implementation disagree (registry history, controlled threads)",
+                          "correspondence E2:eng_reg thr history differs (a planned hook point not reached or a micro-step "
+                          "reordered); the oracle accepts\n" + desc))
+    chk.coverage["thread_schedules"] = len(thr_ops)
     found.sort(key=lambda x: x[0])
     for _, fi, what, payload in found[:40]:
         chk.violation(what, payload, failing_input=fi)
@@ -322,5 +489,7 @@ TRUSTED = [
     "that a wait() returns only after status Stopped is C06's theorem; the model's LWaitRet is enabled only then",
     "hand-written model coq/Registry/Model.v tied to ractor/src/registry.rs, registry/pid_registry.rs, "
     "actor/actor_cell.rs by deterministic E1 histories and OS-thread races (this check)",
+    "hook points ractor/src/actor/verif.rs (cfg slawlor_ractor_verif): new.after_name, status.after_publish, "
+    "cleanup.after_pid — used by the controlled-thread engine",
     "Rust harness eng_reg, lib/c10.py translation of operations to model labels, lib/common.py term parser",
 ]
